@@ -4,7 +4,7 @@ author's README, detection = meta.json) for DESIGN.md section 11.4."""
 import glob, json, os, re
 print("| seed | change (author's title) | detected by | strengthened? |")
 print("|------|--------------------------|-------------|---------------|")
-for d in sorted(glob.glob('/verif/seeded/C*-m*/')):
+for d in sorted(glob.glob('/verif/seeded/C*-*m[0-9]*/')):
     name = os.path.basename(d.rstrip('/'))
     m = json.load(open(d + 'meta.json'))
     title = ""
